@@ -241,3 +241,49 @@ def canon_text(expr: ast.AST, f: FuncInfo, depth: int = 3) -> str:
     params = {a.arg for a in f.node.args.posonlyargs + f.node.args.args + f.node.args.kwonlyargs}
     assigned = {x.id for x in ast.walk(f.node) if isinstance(x, ast.Name) and isinstance(x.ctx, ast.Store)} - params
     return norm(Sub(depth).visit(copy.deepcopy(expr)))
+
+
+def local_all_defs(f: FuncInfo) -> dict[str, list[ast.AST]]:
+    """Every `name = expr` / `name: T = expr` definition of each local (nested functions excluded)."""
+    out: dict[str, list[ast.AST]] = {}
+    for n in walk_no_nested(f.node):
+        if isinstance(n, ast.Assign) and len(n.targets) == 1 and isinstance(n.targets[0], ast.Name):
+            out.setdefault(n.targets[0].id, []).append(n.value)
+        elif isinstance(n, ast.AnnAssign) and isinstance(n.target, ast.Name) and n.value is not None:
+            out.setdefault(n.target.id, []).append(n.value)
+        elif isinstance(n, (ast.For, ast.AsyncFor)) and isinstance(n.target, ast.Name):
+            out.setdefault(n.target.id, []).append(ast.Subscript(value=n.iter, slice=ast.Constant(value="<element>"), ctx=ast.Load()))
+    return out
+
+
+def value_leaves(res, e: ast.AST, f: FuncInfo, depth: int = 0, _seen: set | None = None, stop=None) -> list[tuple[ast.AST, FuncInfo]]:
+    """Source expressions a value can come from: locals replaced by (all of) their definitions, conditional expressions split,
+    calls to functions of the analysed program replaced by what those return (bounded). Leaves are (expression, function)."""
+    seen = set() if _seen is None else _seen
+    if isinstance(e, ast.IfExp):
+        return value_leaves(res, e.body, f, depth, seen, stop) + value_leaves(res, e.orelse, f, depth, seen, stop)
+    if isinstance(e, ast.Name):
+        params = {a.arg for a in f.node.args.posonlyargs + f.node.args.args + f.node.args.kwonlyargs}
+        defs = local_all_defs(f).get(e.id)
+        if defs and e.id not in params and (id(f.node), e.id) not in seen:
+            seen.add((id(f.node), e.id))
+            out = []
+            for d in defs:
+                out += value_leaves(res, d, f, depth, seen, stop)
+            return out
+        return [(e, f)]
+    if isinstance(e, ast.Call) and depth < 3 and not (stop is not None and stop(e)):
+        ts = res.resolve_call(e, f, cha=False)
+        if ts:
+            out = []
+            for t in ts:
+                rets = [n.value for n in walk_no_nested(t.node) if isinstance(n, ast.Return) and n.value is not None]
+                implicit_none = not rets or not all(isinstance(s, (ast.Return, ast.Raise)) for s in t.node.body[-1:])
+                if not rets:
+                    return [(e, f)]
+                for r in rets:
+                    out += value_leaves(res, r, t, depth + 1, seen, stop)
+                if implicit_none:
+                    out.append((ast.Constant(value=None), t))
+            return out
+    return [(e, f)]
